@@ -967,6 +967,10 @@ impl Paint {
             Paint::Color(_) => {} // unreachable
             Paint::LinearGradient(ref mut lg) => {
                 let transform = lg.transform.post_concat(Transform::from_bbox(bbox));
+                if !transform.is_finite() {
+                    return None;
+                }
+
                 if let Some(ref mut lg) = Arc::get_mut(lg) {
                     lg.base.transform = transform;
                     lg.base.units = Units::UserSpaceOnUse;
@@ -988,6 +992,10 @@ impl Paint {
             }
             Paint::RadialGradient(ref mut rg) => {
                 let transform = rg.transform.post_concat(Transform::from_bbox(bbox));
+                if !transform.is_finite() {
+                    return None;
+                }
+
                 if let Some(ref mut rg) = Arc::get_mut(rg) {
                     rg.base.transform = transform;
                     rg.base.units = Units::UserSpaceOnUse;
@@ -1014,6 +1022,12 @@ impl Paint {
                 } else {
                     patt.rect
                 };
+
+                if let Some(view_box) = patt.view_box {
+                    if !view_box.to_transform(rect.size()).is_finite() {
+                        return None;
+                    }
+                }
 
                 if let Some(ref mut patt) = Arc::get_mut(patt) {
                     patt.rect = rect;
